@@ -65,7 +65,7 @@ def schema_features(d):
 
     def walk(x):
         nonlocal nonstr
-        if x[0] in ("dict", "mapping", "mutmapping", "ordered", "defaultdict", "chain", "mproxy", "counter", "pep585dict"):
+        if x[0] in ("dict", "mapping", "mutmapping", "ordered", "defaultdict", "chain", "mproxy", "counter", "pep585dict", "baredict"):
             kd = x[1]
             while kd[0] in ("annotated", "newtype"):
                 kd = kd[1]
